@@ -313,6 +313,9 @@ def expand(pick, model, bounds, hist_fn=None):
                 diff = _first_diff(before_full, after)
                 viol.append(('U2:refused-call-changed-state:%s' % diff[0], call,
                              'refused call (%s) changed %s: %r -> %r' % (err, diff[0], diff[1], diff[2])))
+            if len(comp.actions.plain()) != loglen:
+                viol.append(('R1:refused-call-left-a-log-entry:%s' % _callclass(call, model), call,
+                             'refused call (%s) is in the action log (%r): replaying the log does not rebuild this competition' % (err, comp.actions.plain()[loglen:])))
             if core and allowed is True:
                 viol.append(('U5:allowed-call-refused:%s' % _callclass(call, model), call,
                              'the rules allow %s here but it was refused: %s' % (call, err)))
@@ -687,7 +690,7 @@ class Deep(object):
                 self.stats['leaves'] += 1
                 return
             last = model.heights[-1]
-            for h in (last + 1, last, last - 1):
+            for h in [last + dd for dd in getattr(self, 'jo_deltas', (1, 0, -1))]:
                 if h < MIN_HEIGHT:
                     continue
                 for plan in _product([(b, 'oxr') for b in model.jo_alive]):
@@ -919,3 +922,47 @@ def probe_long(name, card):
         raise HarnessError('a transition read the action log')
     st['final_state'] = comp.state
     return st, viol
+
+
+# ------------------------------------------------------------------------------------------------
+# long jump-offs: from canonical tie starts, every rule-conforming continuation of up to J rounds with a restricted bar menu
+
+def _jolong_work(chunk):
+    n, J, deltas, first_plan = chunk
+    d = Deep(n, 2, J)
+    d.jo_deltas = deltas
+    comp, model, hist = d.start()
+    for r, plan_str in enumerate(('o', 'xxx')):
+        call = ('bar', FIRST_HEIGHT + r)
+        apply_call(comp, call); model.step(call); hist.append(call)
+        _feed(comp, model, {b: plan_str for b in model.order}, d.viol, hist)
+    # first jump-off round fixed by the work item, the rest enumerated
+    h, outcome = first_plan
+    call = ('bar', h)
+    apply_call(comp, call); model.step(call); hist.append(call)
+    if _feed(comp, model, dict(zip(model.jo_alive, outcome)), d.viol, hist):
+        d.node(comp, model, hist)
+    if GuardedLog.reads:
+        raise HarnessError('a transition read the action log')
+    return dict(stats=d.stats, viol=d.viol[:20], outcomes=d.outcomes)
+
+
+def jo_long(n, J, deltas=(0, -1, 1)):
+    """all n athletes clear height 2 and fail height 3 (tie at best 2, no failures), then every jump-off of up to J rounds"""
+    import itertools
+    items = []
+    for h in (3 + dd for dd in deltas):
+        if h < MIN_HEIGHT:
+            continue
+        for outcome in itertools.product('oxr', repeat=n):
+            items.append((n, J, tuple(deltas), (h, outcome)))
+    res = common.pmap(_jolong_work, items)
+    tot = dict(nodes=0, leaves=0, terminal_checked=0, jumpoffs=0)
+    viol, outcomes = [], set()
+    for r in res:
+        for k in tot:
+            tot[k] += r['stats'].get(k, 0)
+        viol.extend(r['viol'])
+        outcomes |= r['outcomes']
+    tot['distinct_outcomes'] = len(outcomes)
+    return tot, viol
